@@ -7,6 +7,7 @@ results (spectra along fixed sight lines, beam density samples, z_effective, ...
 
 The property: after any sequence of ops, scene.observe() == Scene(final config).observe().
 """
+import gc
 import math
 
 from raysect.core import Node, Point3D, Vector3D, translate, rotate_z, rotate_basis, AffineMatrix3D
@@ -24,7 +25,8 @@ from cherab.core.atomic import (AtomicData, Line, deuterium, hydrogen, carbon,
 from cherab.core.model import (ExcitationLine, RecombinationLine, ThermalCXLine, Bremsstrahlung,
                                TotalRadiatedPower, BeamCXLine, BeamEmissionLine, SingleRayAttenuator)
 from cherab.core.model.laser import (SeldenMatobaThomsonSpectrum, ConstantBivariateGaussian, UniformEnergyDensity,
-                                     GaussianBeamAxisymmetric, GaussianSpectrum, ConstantSpectrum)
+                                     GaussianBeamAxisymmetric, TrivariateGaussian, GaussianSpectrum, ConstantSpectrum)
+from cherab.core.math.integrators import GaussianQuadrature
 
 AMU = 1.66053906660e-27
 ME = 9.1093837015e-31
@@ -248,6 +250,7 @@ VALUES = {
     "p_atomic_data": [lambda: Provider(1), lambda: Provider(2)],
     "p_models": [(0, 1, 2, 3, 4), (0,), (3, 4, 2), (), (1, 0), (4, 3, 2, 1, 0)],
     "brems_gaunt": [lambda: None, lambda: GAUNT(None, 1.3)],
+    "brems_integrator": [lambda: GaussianQuadrature(), lambda: GaussianQuadrature(relative_tolerance=1e-3, min_order=2, max_order=6)],
     # ---- beam
     "b_transform": [lambda: translate(-0.9, 0, 0) * BEAM_BASIS, lambda: translate(-0.9, 0.03, 0.01) * BEAM_BASIS,
                     lambda: translate(-0.85, 0, 0) * rotate_z(4) * BEAM_BASIS],
@@ -269,10 +272,18 @@ VALUES = {
     "b_models": [(0, 1), (0,), (1,), (), (1, 0)],
     "b_integrator": [lambda: NumericalIntegrator(step=0.02), lambda: NumericalIntegrator(step=0.025)],
     "cx_line": [lambda: Line(carbon, 5, (8, 7)), lambda: Line(carbon, 5, (10, 8))],
+    "bes_line": [lambda: Line(deuterium, 0, (3, 2)), lambda: Line(hydrogen, 0, (3, 2))],
     # ---- laser
     "l_transform": [lambda: translate(0.1, 0.1, -0.5), lambda: translate(0.12, 0.1, -0.5)],
     "l_parent": ["world", "nodeA"],
-    "l_profile": [0, 1, 2],                       # kind of profile object (new object per assignment)
+    "l_profile": [0, 1, 2, 3],                    # kind of profile object (new object per assignment)
+    "lp_pulse_length": [1e-8, 2e-8],
+    "lp_stddev_x": [0.02, 0.025],
+    "lp_stddev_y": [0.015, 0.012],
+    "lp_waist_z": [0.4, 0.3],
+    "lp_stddev_waist": [0.01, 0.012],
+    "lp_wavelength": [1060.0, 1030.0],
+    "lp_mean_z": [0.5, 0.45],
     "lp_length": [1.0, 0.8],
     "lp_radius": [0.05, 0.04],
     "lp_energy": [1.0, 2.0],
@@ -302,17 +313,20 @@ def _val(field, idx):
 
 # ---------------------------------------------------------------------------------------------
 class Scene:
-    def __init__(self, config):
+    def __init__(self, config, fresh_models=False):
+        # fresh_models: assigning a model list creates NEW model objects and drops the old ones (a user who does
+        # `plasma.models = [ExcitationLine(...)]` keeps no reference to the replaced models, which are then
+        # garbage collected while still registered with the notifiers)
+        self.fresh_models = fresh_models
         self.cfg = dict(config)
         c = self.cfg
         self.world = World()
         self.nodeA = Node(parent=self.world, transform=_val("a_transform", c["a_transform"]))
         # pools of reusable objects (a user would create them once and re-attach them)
         self.species = [self._make_species(i) for i in range(len(SPECIES))]
-        self.pmodels = [ExcitationLine(Line(deuterium, 0, (3, 2))), RecombinationLine(Line(deuterium, 0, (3, 2))),
-                        ThermalCXLine(Line(carbon, 5, (8, 7))), Bremsstrahlung(), TotalRadiatedPower(carbon, 5)]
-        self.bmodels = [BeamCXLine(_val("cx_line", c["cx_line"])), BeamEmissionLine(Line(deuterium, 0, (3, 2)))]
-        self.lmodels = [SeldenMatobaThomsonSpectrum()]
+        self.pmodels = self._new_pool("p_models", first=True)
+        self.bmodels = self._new_pool("b_models")
+        self.lmodels = self._new_pool("l_models")
         self.providers = []
         # ---- plasma
         p = self.plasma = Plasma(parent=self._parent(c["p_parent"]), transform=_val("p_transform", c["p_transform"]))
@@ -324,6 +338,7 @@ class Scene:
         p.geometry_transform = _val("p_geometry_transform", c["p_geometry_transform"])
         p.integrator = _val("p_integrator", c["p_integrator"])
         self.pmodels[3].gaunt_factor = _val("brems_gaunt", c["brems_gaunt"])
+        self.pmodels[3].integrator = _val("brems_integrator", c["brems_integrator"])
         p.models = [self.pmodels[i] for i in c["p_models"]]
         # ---- beam
         b = self.beam = Beam(parent=self._parent(c["b_parent"]), transform=_val("b_transform", c["b_transform"]))
@@ -350,6 +365,26 @@ class Scene:
         la.models = [self.lmodels[i] for i in c["l_models"]]
 
     # ---- constructors of values ---------------------------------------------------------------
+    def _new_pool(self, fam, first=False):
+        c = self.cfg
+        if fam == "p_models":
+            pool = [ExcitationLine(Line(deuterium, 0, (3, 2))), RecombinationLine(Line(deuterium, 0, (3, 2))),
+                    ThermalCXLine(Line(carbon, 5, (8, 7))), Bremsstrahlung(), TotalRadiatedPower(carbon, 5)]
+            if not first:
+                pool[3].gaunt_factor = _val("brems_gaunt", c["brems_gaunt"])
+                pool[3].integrator = _val("brems_integrator", c["brems_integrator"])
+            return pool
+        if fam == "b_models":
+            return [BeamCXLine(_val("cx_line", c["cx_line"])), BeamEmissionLine(_val("bes_line", c["bes_line"]))]
+        return [SeldenMatobaThomsonSpectrum()]
+
+    def _models_for(self, fam, idxs):
+        """the model objects for a list assignment; in fresh_models mode the pool is replaced and the old objects die"""
+        attr = {"p_models": "pmodels", "b_models": "bmodels", "l_models": "lmodels"}[fam]
+        if self.fresh_models:
+            setattr(self, attr, self._new_pool(fam))
+        return [getattr(self, attr)[i] for i in idxs]
+
     def _parent(self, name):
         return self.world if name in (0, "world") else self.nodeA
 
@@ -377,13 +412,19 @@ class Scene:
         kind = c["l_profile"]
         length, radius = _val("lp_length", c["lp_length"]), _val("lp_radius", c["lp_radius"])
         energy, pol = _val("lp_energy", c["lp_energy"]), _val("lp_polarization", c["lp_polarization"])
+        plen = _val("lp_pulse_length", c["lp_pulse_length"])
+        sx, sy = _val("lp_stddev_x", c["lp_stddev_x"]), _val("lp_stddev_y", c["lp_stddev_y"])
         if kind == 0:
-            return ConstantBivariateGaussian(pulse_energy=energy, pulse_length=1e-8, laser_radius=radius, laser_length=length,
-                                             stddev_x=0.02, stddev_y=0.015, polarization=pol)
+            return ConstantBivariateGaussian(pulse_energy=energy, pulse_length=plen, laser_radius=radius, laser_length=length,
+                                             stddev_x=sx, stddev_y=sy, polarization=pol)
         if kind == 1:
             return UniformEnergyDensity(energy_density=energy, laser_length=length, laser_radius=radius, polarization=pol)
-        return GaussianBeamAxisymmetric(pulse_energy=energy, pulse_length=1e-8, laser_length=length, laser_radius=radius,
-                                        waist_z=0.4, stddev_waist=0.01, laser_wavelength=1060.0, polarization=pol)
+        if kind == 3:
+            return TrivariateGaussian(pulse_energy=energy, pulse_length=plen * 1e-1, mean_z=_val("lp_mean_z", c["lp_mean_z"]),
+                                      laser_length=length, laser_radius=radius, stddev_x=sx, stddev_y=sy, polarization=pol)
+        return GaussianBeamAxisymmetric(pulse_energy=energy, pulse_length=plen, laser_length=length, laser_radius=radius,
+                                        waist_z=_val("lp_waist_z", c["lp_waist_z"]), stddev_waist=_val("lp_stddev_waist", c["lp_stddev_waist"]),
+                                        laser_wavelength=_val("lp_wavelength", c["lp_wavelength"]), polarization=pol)
 
     def _make_spectrum(self):
         c = self.cfg
@@ -451,9 +492,15 @@ class Scene:
         elif f == "p_atomic_data":
             p.atomic_data = self._provider(f, v)
         elif f == "p_models":
-            p.models = [self.pmodels[i] for i in v]
+            p.models = self._models_for("p_models", v)
+            if self.fresh_models:
+                gc.collect()
         elif f == "brems_gaunt":
             self.pmodels[3].gaunt_factor = _val(f, v)
+        elif f == "brems_integrator":
+            self.pmodels[3].integrator = _val(f, v)
+        elif f == "bes_line":
+            self.bmodels[1].line = _val(f, v)
         elif f == "b_transform":
             b.transform = _val(f, v)
         elif f == "b_parent":
@@ -488,7 +535,9 @@ class Scene:
         elif f == "att_clamp_sigma":
             b.attenuator.clamp_sigma = _val(f, v)
         elif f == "b_models":
-            b.models = [self.bmodels[i] for i in v]
+            b.models = self._models_for("b_models", v)
+            if self.fresh_models:
+                gc.collect()
         elif f == "b_integrator":
             b.integrator = _val(f, v)
         elif f == "cx_line":
@@ -508,6 +557,26 @@ class Scene:
                 la.laser_profile.energy_density = _val(f, v)
             else:
                 la.laser_profile.pulse_energy = _val(f, v)
+        elif f == "lp_pulse_length":
+            if c["l_profile"] in (0, 2):
+                la.laser_profile.pulse_length = _val(f, v)
+            elif c["l_profile"] == 3:
+                la.laser_profile.pulse_length = _val(f, v) * 1e-1
+        elif f in ("lp_stddev_x", "lp_stddev_y"):
+            if c["l_profile"] in (0, 3):
+                setattr(la.laser_profile, f[3:], _val(f, v))
+        elif f == "lp_waist_z":
+            if c["l_profile"] == 2:
+                la.laser_profile.waist_z = _val(f, v)
+        elif f == "lp_stddev_waist":
+            if c["l_profile"] == 2:
+                la.laser_profile.stddev_waist = _val(f, v)
+        elif f == "lp_wavelength":
+            if c["l_profile"] == 2:
+                la.laser_profile.laser_wavelength = _val(f, v)
+        elif f == "lp_mean_z":
+            if c["l_profile"] == 3:
+                la.laser_profile.mean_z = _val(f, v)
         elif f == "lp_polarization":
             la.laser_profile.set_polarization(_val(f, v))
         elif f == "l_spectrum":
@@ -525,7 +594,9 @@ class Scene:
             if c["l_spectrum"] == 0:
                 la.laser_spectrum.stddev = _val(f, v)
         elif f == "l_models":
-            la.models = [self.lmodels[i] for i in v]
+            la.models = self._models_for("l_models", v)
+            if self.fresh_models:
+                gc.collect()
         elif f == "l_integrator":
             la.integrator = _val(f, v)
         elif f == "l_importance":
